@@ -367,7 +367,7 @@ func r055(c *Ctx, r *R) {
 		if !isNilConst(lf.Val) {
 			continue
 		}
-		gs := guardsOf(lf.Block)
+		gs := lf.Guards()
 		sameType, notErr, notDone, found := false, false, false, false
 		for _, g := range gs {
 			if l, idx := mapLookupOf(g.Cond); l != nil && idx == 1 && g.Branch {
